@@ -136,18 +136,20 @@ func gcLocks(t *testing.T, backend sim.Backend) {
 		gateType := rapid.SampledFrom([]string{"", "ScanLock", "ResolveLock"}).Draw(t, "gate")
 		gateIdx := rapid.IntRange(0, 2).Draw(t, "gateidx")
 		gateKey := rapid.SampledFrom(keys).Draw(t, "gatekey") + rapid.SampledFrom([]string{"", "1"}).Draw(t, "gatesfx")
+		slowSecondaries := backend == sim.Uni && rapid.Bool().Draw(t, "slowsecondaries")
 		var ws []string
 		for _, w := range writers {
 			ws = append(ws, w.String())
 		}
-		desc := fmt.Sprintf("backend=%v stores=%d splits=%q safepoint=mark[%d] viaGC=%v concurrency=%d scanlimit=%d gate=%s#%d split(%s)\n  writers:\n    %s",
-			backend, nStores, splits, spChoice, useGC, conc, limit, gateType, gateIdx, gateKey, strings.Join(ws, "\n    "))
+		desc := fmt.Sprintf("backend=%v stores=%d splits=%q safepoint=mark[%d] viaGC=%v concurrency=%d scanlimit=%d gate=%s#%d split(%s) slow-present-secondaries=%v\n  writers:\n    %s",
+			backend, nStores, splits, spChoice, useGC, conc, limit, gateType, gateIdx, gateKey, slowSecondaries, strings.Join(ws, "\n    "))
 
 		cl, err := sim.NewCluster(backend, nStores, 2+nW)
 		if err != nil {
 			t.Fatalf("VERIF-INFRA: %v", err)
 		}
 		defer cl.Close()
+		cl.SlowPresentSecondaries = slowSecondaries
 		for _, k := range splits {
 			cl.SplitAt(k)
 		}
